@@ -388,6 +388,12 @@ def check(chk, repo, tier):
     # interpreted on the key itself)
     lp = LexProbe(repo, it)
     LF = repo.mod("lexer").rel
+    # a key is reachable in every program, not only in the first one lexed:
+    # the lexer must not remember earlier texts (a token pool keyed by the
+    # character alone turns `+` into the CHARACTER token of an earlier `\+`)
+    from ..lexlaws import law_stateless  # noqa: PLC0415
+    if not law_stateless(chk, lp, "C20.lexer-stateless", LF):
+        return
     dig_heads = lp.digraph_heads()
     chk.unit("digraph heads (by probing)", "".join(sorted(
         h for h in dig_heads if len(h) == 1)))
